@@ -170,7 +170,7 @@ class Interp:
             # C-like enum constant / newtype scalar
             return self.scalar_of_ty(ty, v, int(j.get('size', 1)))
         if 'str' in j:
-            return Opaque(('str', j['str']))
+            return RefV(Cell(Opaque(('str', j['str'])), 'strlit'))
         if 'def' in j:
             if 'promoted' in j:
                 pb = self.facts.bodies.get('%s::{promoted#%d}' % (j['def'], j['promoted']))
@@ -1238,3 +1238,26 @@ def m_map_iter(I, a, t, c):
        '<T as std::borrow::Borrow<T>>::borrow')
 def m_borrow_mut(I, a, t, c):
     return a[0]
+
+
+@model('std::iter::Iterator::filter')
+def m_filter(I, a, t, c):
+    out = []
+    for x in _iter_items(I, a[0]):
+        r = I.call_closure(a[1], [RefV(Cell(x, 'item'))])
+        if I.conc(r, 'filter predicate'):
+            out.append(x)
+    return Agg('iter', 0, [out, 0])
+
+
+@model('std::iter::Iterator::count')
+def m_count(I, a, t, c):
+    return BV(64, len(_iter_items(I, a[0])))
+
+
+@model('<T as std::string::ToString>::to_string')
+def m_to_string(I, a, t, c):
+    v = a[0]
+    while isinstance(v, RefV):
+        v = I.load(v)
+    return v
